@@ -85,6 +85,15 @@ def jField (k : Str) : Json → Option Json
   | .obj kvs => kvs.lookup k
   | _ => none
 
+/-- the `external_url` text of the i-th description of the list-valued attribute `k` of a description -/
+def listedUrl (k : Str) (i : Nat) (d : Json) : Option Str :=
+  match jField k d with
+  | some (.arr xs) =>
+    match xs[i]? with
+    | some x => (match jField kUrl x with | some (.str s) => some s | _ => none)
+    | none => none
+  | _ => none
+
 /-- the module descriptions listed in a `modules.json` document -/
 def docModules (doc : Json) : List Json :=
   match jField kModules doc with
